@@ -171,7 +171,18 @@ class CoopQueue:
         tid = _tid()
         self.s.point(tid)
         if self._full():
-            self.s.block_until(tid, lambda: not self._full())
+            if not block:
+                self.s.record(k='putFull')
+                raise real_queue.Full()
+            if timeout is not None:
+                # a timed wait may end at any moment: the thread stays enabled, and when the
+                # scheduler picks it while the queue is still full the timeout has fired
+                self.s.block_until(tid, lambda: True)
+                if self._full():
+                    self.s.record(k='putTimeout')
+                    raise real_queue.Full()
+            else:
+                self.s.block_until(tid, lambda: not self._full())
         self.items.append(item)
         if isinstance(item, int):
             self.s.record(k='put', v=item)
@@ -184,7 +195,13 @@ class CoopQueue:
             return self.get_nowait()
         self.s.point(tid)
         if not self.items:
-            self.s.block_until(tid, lambda: bool(self.items))
+            if timeout is not None:
+                self.s.block_until(tid, lambda: True)
+                if not self.items:
+                    self.s.record(k='getTimeout')
+                    raise real_queue.Empty()
+            else:
+                self.s.block_until(tid, lambda: bool(self.items))
         item = self.items.pop(0)
         if isinstance(item, int):
             self.s.record(k='get', v=item)
